@@ -67,6 +67,13 @@ CHECKS.update({
    note="FakePool instead of multiprocessing.Pool; pool=None not generated."),
 })
 
+
+CHECKS.update({
+ "C13": dict(level="exploration", engine="operation-engine", ref="DESIGN.md section 4 C13", technique="deterministic simulation, operation engine: seeded Hypothesis stateful machine treating one HDF5 file as a key->object store against an in-memory model, restart between save and load; explicit real-flow save/reload cases",
+   text="Seeded operation sequences save sample sets (every class x namespace x dtype x field subset x flat/nested), histories with populations, every transform class (option subsets, fitted or not), dictionaries with None/{}/nested/string lists/numpy scalars and arrays, and Aspire configurations + proposals into one file, restart, and reload any key; every reload is compared observationally with the model (values, names, namespace, dtype, fields; same maps and log-Jacobians on probe points; same settings and proposal after resume_from_file). Real zuko and flowjax flows are saved and reloaded (trained/untrained, dtypes, bounded-transform variants) and compared on probe points. An exception during a reload is a violation.",
+   note="Fault-free round trips (the statement is about those); container types and transform output width are not compared; FlowPreconditioningTransform.save is NotImplemented upstream and not exercised."),
+})
+
 NOT_APPLICABLE = [
   {"property_id": "C02", "reason": "pure function of one array triple (weights/evidence/ESS formulas): no schedule, storage, randomness, interruption or second party for a simulator to control; see DESIGN.md section 5"},
   {"property_id": "C04", "reason": "pure mathematical map per transform configuration, quantified over inputs only: nothing a crash, seed or operation order can decide; see DESIGN.md section 5"},
